@@ -32,7 +32,7 @@ From Coq Require Import Reals QArith Qcanon.
 Require Import Spectrum.Theory.Ops Spectrum.Theory.Sum Spectrum.Theory.Vec Spectrum.Theory.Order
                Spectrum.Model.Levinson Spectrum.Model.LinPred
                Spectrum.Proofs.LevinsonTheory Spectrum.Proofs.BurgTheory Spectrum.Proofs.LinPredTheory
-               Spectrum.Proofs.LinPredOrder Spectrum.Proofs.LinPredLsf Spectrum.Proofs.LinPredReal
+               Spectrum.Proofs.LinPredOrder Spectrum.Proofs.LinPredLsf Spectrum.Proofs.LinPredDeconv Spectrum.Proofs.LinPredReal
                Spectrum.Instances.QcC Spectrum.Instances.QcCOrd Spectrum.Instances.QcCEq_C11.
 
 Section C11.
@@ -115,6 +115,17 @@ Theorem lsf_combine_sumdiff (a P Q : list F) : let p := (length a - 1)%nat in
   (if Nat.odd p then Q else conv Q d_p1) = lsf_Q1 a ->
   lsf_combine p P Q = a.
 Proof. exact (lsf_combine_sumdiff_thm a P Q). Qed.
+
+Theorem lsf_division_exact (a : list F) : (1 <= length a)%nat ->
+  let p := (length a - 1)%nat in
+  (if Nat.odd p then conv (fst (fst (lsf_PQ a))) d_pm else conv (fst (fst (lsf_PQ a))) d_m1) = lsf_P1 a /\
+  (if Nat.odd p then fst (snd (lsf_PQ a)) else conv (fst (snd (lsf_PQ a))) d_p1) = lsf_Q1 a /\
+  (forall j, nthF (snd (fst (lsf_PQ a))) j = 0) /\ (forall j, nthF (snd (snd (lsf_PQ a))) j = 0).
+Proof. exact (lsf_division_exact_thm a). Qed.
+
+Theorem lsf_algebra_roundtrip (a : list F) : (1 <= length a)%nat ->
+  lsf_combine (length a - 1) (fst (fst (lsf_PQ a))) (fst (snd (lsf_PQ a))) = a.
+Proof. exact (lsf_algebra_roundtrip_thm a). Qed.
 End C11.
 
 Section C11_ordered.
@@ -212,6 +223,8 @@ Print Assumptions lsf_P1_root_p1.
 Print Assumptions lsf_P1_root_m1.
 Print Assumptions lsf_Q1_root_m1.
 Print Assumptions lsf_combine_sumdiff.
+Print Assumptions lsf_division_exact.
+Print Assumptions lsf_algebra_roundtrip.
 Print Assumptions rc2poly_error_pos.
 Print Assumptions rc2ac_returns.
 Print Assumptions ac2_rc2ac.
